@@ -67,3 +67,24 @@ Example plain_print_is_ambiguous :
   parse_expr (print_plain (EBin Asterisk (EBin Plus (EAtom 0) (EAtom 1)) (EAtom 2)))
   = Some (EBin Plus (EAtom 0) (EBin Asterisk (EAtom 1) (EAtom 2))).
 Proof. vm_compute. reflexivity. Qed.
+
+(** a trailing cast to a bare type name on the right spine of the left operand of "<":
+    Binary(<, Binary(+, a, TypeCast(b, T)), c) is written "(a+b::T)<c"; without the parentheses
+    the reference grammar reads "T<c" as the start of type parameters *)
+Definition cast_tree : expr := EBin LowerThan (EBin Plus (EAtom 0) (ECast (EAtom 1) CBare)) (EAtom 2).
+
+Example cast_tree_tokens :
+  tokens_of_expr ptbl cast_tree = [KLp; KAtom 0; KOp SPlus; KAtom 1; KCast CBare; KRp; KOp SLt; KAtom 2].
+Proof. vm_compute. reflexivity. Qed.
+
+Example cast_tree_reads_back : option_map strip (parse_expr (tokens_of_expr ptbl cast_tree)) = Some cast_tree.
+Proof. vm_compute. reflexivity. Qed.
+
+Example cast_without_parentheses_is_rejected : parse_expr (print_plain cast_tree) = None.
+Proof. vm_compute. reflexivity. Qed.
+
+(** a type with parameters needs none: "a+b::T<P><c" *)
+Example cast_param_tree_tokens :
+  tokens_of_expr ptbl (EBin LowerThan (EBin Plus (EAtom 0) (ECast (EAtom 1) CParam)) (EAtom 2))
+  = [KAtom 0; KOp SPlus; KAtom 1; KCast CParam; KOp SLt; KAtom 2].
+Proof. vm_compute. reflexivity. Qed.
